@@ -1252,8 +1252,9 @@ impl OverlayFs {
                 delete_whiteout = true;
             }
 
-            // Set opaque if child dir has lower layers.
-            if !n.upper_layer_only() {
+            // Set opaque if child dir has lower layers. A whiteout found in the upper layer stops the
+            // lookup there, so the lower layers have to be asked directly.
+            if !n.upper_layer_only() || Self::lower_layers_have_child(ctx, parent_node, name)? {
                 set_opaque = true;
             }
         }
